@@ -337,7 +337,7 @@ func c16LibMarkers(ms []string) []string {
 			rows[i] = row
 		}
 	}
-	const batch = 64
+	const batch = c16Batch
 	n := (len(ms) + batch - 1) / batch
 	core.ParFor(n, func(b int) {
 		hi := (b + 1) * batch
@@ -347,6 +347,23 @@ func c16LibMarkers(ms []string) []string {
 		eval(b*batch, hi)
 	})
 	return rows
+}
+
+const c16Batch = 64
+
+// c16JudgeMarkerBatch replays a marker inside the batch it was evaluated with.
+func c16JudgeMarkerBatch(m, want, ctx string) (bool, string) {
+	var ms []string
+	if json.Unmarshal([]byte(ctx), &ms) != nil {
+		return true, "bad witness"
+	}
+	rows := c16LibMarkers(ms)
+	for i, x := range ms {
+		if x == m {
+			return rows[i] == want, fmt.Sprintf("in its batch the marker %q is followed for %s, packaging evaluates %s", m, rows[i], want)
+		}
+	}
+	return true, "marker not in its batch"
 }
 
 func c16JudgeMarker(m, want string) (bool, string) {
@@ -446,7 +463,18 @@ func C16(tier string) {
 		}
 		if lib[i] != want {
 			mBad++
-			run.Fail(core.Join("marker", m, want), fmt.Sprintf("marker %q: guarded edge followed for requested extras (none, x, y, x+y) = %s, packaging evaluates %s", m, lib[i], want))
+			if alone := c16LibMarkers([]string{m})[0]; alone != want {
+				run.Fail(core.Join("marker", m, want), fmt.Sprintf("marker %q: guarded edge followed for requested extras (none, x, y, x+y) = %s, packaging evaluates %s", m, lib[i], want))
+			} else {
+				// right on a fresh resolver, wrong after the resolver has seen the other markers of the batch
+				lo := i / c16Batch * c16Batch
+				hi := lo + c16Batch
+				if hi > len(ms) {
+					hi = len(ms)
+				}
+				ctx, _ := json.Marshal(ms[lo:hi])
+				run.Fail(core.Join("marker-batch", m, want, string(ctx)), fmt.Sprintf("marker %q: evaluated alone the guarded edge is followed as packaging says (%s), but in one resolution together with the other markers of its batch it is followed for %s", m, want, lib[i]))
+			}
 		}
 	}
 	for o := range outcomes {
@@ -477,6 +505,8 @@ func c16Replay(w string) (bool, string) {
 		return c16JudgeName(p[1], p[2])
 	case "marker":
 		return c16JudgeMarker(p[1], p[2])
+	case "marker-batch":
+		return c16JudgeMarkerBatch(p[1], p[2], p[3])
 	}
 	return true, "unknown witness"
 }
